@@ -1,3 +1,105 @@
-(** C07 — property theorems only. *)
+(** C07 — property theorems only.  Each is closed by [exact] of a lemma proved in Proofs*.v
+    and followed by [Print Assumptions].
+
+    Scope of what is proved here (see Open.v for what is carried by the harness only):
+    the in-memory trie operations of trie.go (insert / delete / get, transcribed in Model.v)
+    on fully resolved tries refine a finite map, keep the trie in the unique canonical form,
+    and therefore the trie structure (up to the hash caches) and the root hash computed from
+    it depend on the key-value content alone — not on the order of operations. *)
 From Coq Require Import List NArith Arith Bool.
-From Kardia Require Import C07.Model.
+From Kardia Require Import C07.Model C07.ProofsBase C07.ProofsMap C07.ProofsCanon.
+Import ListNotations.
+
+(** keybytesToHex is injective on byte strings and yields well-formed keys *)
+Theorem C07_keybytes_hex_injective :
+  forall a b, is_bytes a -> is_bytes b -> keybytes_to_hex a = keybytes_to_hex b -> a = b.
+Proof. exact keybytes_to_hex_inj. Qed.
+Print Assumptions C07_keybytes_hex_injective.
+
+Theorem C07_keybytes_hex_wellformed : forall bs, is_bytes bs -> wfk (keybytes_to_hex bs).
+Proof. exact keybytes_to_hex_wfk. Qed.
+Print Assumptions C07_keybytes_hex_wellformed.
+
+(** Trie.get on a canonical trie returns the node unchanged and the value the content relation
+    assigns to the key (empty = absent); the fuel computed from the key always suffices *)
+Theorem C07_get_refines :
+  forall d fuel n k, canon n -> wfk k -> length k < fuel ->
+  exists v, get fuel d n k = Ok (v, n) /\
+            ((v = [] /\ forall w, ~ has n k w) \/ (v <> [] /\ has n k v)).
+Proof. exact get_spec. Qed.
+Print Assumptions C07_get_refines.
+
+(** Trie.insert of a non-empty value: never fails, stays canonical, content becomes m[k := v] *)
+Theorem C07_insert_refines :
+  forall d v, v <> [] ->
+  forall fuel n k, canon n -> wfk k -> length k < fuel ->
+  exists b n', insert fuel d n k (Value v) = Ok (b, n') /\ canon n' /\ n' <> Empty /\
+               (b = false -> n' = n) /\
+               (forall cs g, n = Full cs g -> exists cs' g', n' = Full cs' g') /\
+               (forall k' w, has n' k' w <-> (k' = k /\ w = v) \/ (k' <> k /\ has n k' w)).
+Proof. exact insert_spec. Qed.
+Print Assumptions C07_insert_refines.
+
+(** Trie.delete: never fails, stays canonical (branches with one child left are collapsed,
+    short nodes merged), content becomes m \ {k} *)
+Theorem C07_delete_refines :
+  forall d fuel n k, canon n -> wfk k -> length k < fuel ->
+  exists b n', delete fuel d n k = Ok (b, n') /\ canon n' /\
+               (b = false -> n' = n) /\
+               (forall cs g, n = Full cs g -> n' <> Empty) /\
+               (forall k' w, has n' k' w <-> (k' <> k /\ has n k' w)).
+Proof. exact delete_spec. Qed.
+Print Assumptions C07_delete_refines.
+
+(** the canonical form is unique: same content => same trie, up to the hash caches *)
+Theorem C07_canonical_unique :
+  forall a b, canon a -> canon b -> (forall k w, has a k w <-> has b k w) -> erase a = erase b.
+Proof. intros a b Ha Hb. exact (canon_unique a Ha b Hb). Qed.
+Print Assumptions C07_canonical_unique.
+
+(** authenticated *map*: after any sequence of Update/Delete (Update with an empty value
+    deletes) starting from the empty trie, no operation fails and Get returns for every key
+    exactly the last value written (empty if deleted or never written) *)
+Theorem C07_history_refines_map :
+  forall d ops, Forall (fun o => is_bytes (mop_key o)) ops ->
+  exists n, run d Empty ops = Ok n /\ canon n /\
+            forall kb, is_bytes kb -> trie_get d n kb = Ok (content (fun _ => []) ops kb, n).
+Proof.
+  intros d ops Hk. destruct (run_represents d ops _ _ represents_empty Hk) as (n & Hr & Hrep).
+  exists n. split; auto. split; [apply Hrep|]. intros kb Hb. apply represents_get; auto.
+Qed.
+Print Assumptions C07_history_refines_map.
+
+(** canonical root: two histories that end with the same content end with the same trie (up to
+    caches) and hence the same root hash — independent of the order of insertion and of
+    deleted intermediate entries.  [H] is arbitrary: nothing about Keccak is assumed. *)
+Theorem C07_root_content_only :
+  forall (H : bytes -> bytes) d ops1 ops2 n1 n2,
+  Forall (fun o => is_bytes (mop_key o)) ops1 -> Forall (fun o => is_bytes (mop_key o)) ops2 ->
+  (forall kb, is_bytes kb -> content (fun _ => []) ops1 kb = content (fun _ => []) ops2 kb) ->
+  run d Empty ops1 = Ok n1 -> run d Empty ops2 = Ok n2 ->
+  erase n1 = erase n2 /\
+  fst (trie_hash H (erase n1)) = fst (trie_hash H (erase n2)).
+Proof.
+  intros H d ops1 ops2 n1 n2 H1 H2 Hc R1 R2.
+  destruct (run_represents d ops1 _ _ represents_empty H1) as (m1 & E1 & P1).
+  destruct (run_represents d ops2 _ _ represents_empty H2) as (m2 & E2 & P2).
+  rewrite R1 in E1. rewrite R2 in E2. inversion E1; inversion E2; subst.
+  assert (E : erase m1 = erase m2) by (eapply represents_unique; eauto).
+  split; auto. rewrite E. reflexivity.
+Qed.
+Print Assumptions C07_root_content_only.
+
+(** the hypotheses are satisfiable and the functions compute: three keys with a shared prefix
+    inserted in two different orders (one history also inserts and deletes a fourth key) *)
+Example C07_example_two_orders :
+  let a := MUpdate [1; 35]%N [170]%N in
+  let b := MUpdate [1; 36]%N [187; 187]%N in
+  let c := MUpdate [1]%N [204]%N in
+  let x := MUpdate [1; 35; 69]%N [221]%N in
+  exists n1 n2,
+    run [] Empty [a; b; c] = Ok n1 /\
+    run [] Empty [x; c; b; MDelete [1; 35; 69]%N; a] = Ok n2 /\
+    erase n1 = erase n2 /\
+    trie_get [] n2 [1; 36]%N = Ok ([187; 187]%N, n2).
+Proof. vm_compute. eexists _, _. repeat split. Qed.
